@@ -146,7 +146,8 @@ def apply_fn(facts, f, args):
                 if n[0] == 'arg' and isinstance(n[1], int) and n[1] >= 2 and n[1] - 2 < len(args):
                     return args[n[1] - 2]
                 return None
-            return subst(resolve_upvars(facts, clo, ret_choice(facts, clo)), rep)
+            # closure parameters first, then captured variables (whose trees may mention the PARENT's parameters)
+            return resolve_upvars(facts, clo, subst(ret_choice(facts, clo), rep))
     if isinstance(f, tuple) and f and f[0] == 'fn':
         from .facts import norm_path
         path = norm_path(f[1])
